@@ -113,6 +113,7 @@ def contract_workload(res, ctx):
         from props import c02
         for _ in range(ctx.pick(10, 100)):
             c02.interleaved_parses(res, rng, rng.choice((('v2', 'v2'), ('v2', 'v3'), ('v3', 'v3'))), prefix='c01')
+            c02.threaded_parses(res, rng, rng.choice((('v2', 'v2'), ('v2', 'v3'), ('v3', 'v3'))), prefix='c01')
     finally:
         undo()
     res.count('contract_evaluations', log.evaluations)
@@ -211,6 +212,7 @@ def run(ctx):
                         '2^512 inputs are sampled with structure, not enumerated']
     res.require('bit_flips', 512)
     res.require('byte_couplings', 1000)
+    res.require('threaded_parses', 6)
     res.require('contract_evaluations', 1)
     return res
 
